@@ -8,7 +8,7 @@ from __future__ import annotations
 import ast
 
 from ..gen import EXTRA, Kernel, Untranslatable, all_stmts, find_for, register
-from ..pyexpr import ExprTr, emit_def, find_function, parse_file, translate_block
+from ..pyexpr import ExprTr, emit_def, find_function, lean_ident, parse_file, translate_block
 
 U = "direct/utils/__init__.py"
 S = "direct/data/samplers.py"
@@ -17,20 +17,40 @@ IMP = ("DirectVerif.Model.Sampler", "DirectVerif.Model.C13Machine")
 
 # ---- chunks ------------------------------------------------------------------------------------
 def _chunks_parts(fn: ast.FunctionDef):
-    """(tr, lets, slice node) after checking `d, r = divmod(len(list_to_chunk), number_of_chunks)` and the
-    loop `for idx in range(number_of_chunks)`."""
-    ok = False
+    """(tr, lets, slice node).  Names of locals do not matter: quotient and remainder are whatever
+    `divmod(len(list_to_chunk), number_of_chunks)` (or `//` and `%`) is bound to, the chunk index is the variable of the loop
+    over `range(number_of_chunks)`; everything else is translated as integer arithmetic and left to the bridge lemma
+    (`∀ n k idx, Gen = Model`, proved by case analysis + ring arithmetic, not by comparing text)."""
+    tr = ExprTr({"len(list_to_chunk)": "n", "number_of_chunks": "k"})
+    lets = []
+    loop = None
+    pre = []
     for st in fn.body:
-        if (isinstance(st, ast.Assign) and ast.unparse(st.targets[0]) in ("(d, r)", "d, r")
+        if isinstance(st, ast.For):
+            loop = st
+            break
+        if (isinstance(st, ast.Assign) and len(st.targets) == 1 and isinstance(st.targets[0], ast.Tuple)
+                and len(st.targets[0].elts) == 2 and all(isinstance(e, ast.Name) for e in st.targets[0].elts)
                 and ast.unparse(st.value).replace(" ", "") == "divmod(len(list_to_chunk),number_of_chunks)"):
-            ok = True
-    if not ok:
-        raise Untranslatable("`d, r = divmod(len(list_to_chunk), number_of_chunks)` not found")
-    loop = find_for(fn, 0)
-    if ast.unparse(loop.target) != "idx" or ast.unparse(loop.iter).replace(" ", "") != "range(number_of_chunks)":
+            l, _ = translate_block(pre, tr, [])
+            lets += l
+            pre = []
+            qn, rn = (e.id for e in st.targets[0].elts)
+            lets.append(f"let {lean_ident(qn)} : Int := (Int.fdiv n k)")
+            lets.append(f"let {lean_ident(rn)} : Int := (Int.fmod n k)")
+            tr.locals[qn], tr.locals[rn] = lean_ident(qn), lean_ident(rn)
+            continue
+        pre.append(st)
+    if loop is None:
+        raise Untranslatable("no loop over the chunk index")
+    l, _ = translate_block(pre, tr, [])
+    lets += l
+    if not (isinstance(loop.target, ast.Name) and ast.unparse(loop.iter).replace(" ", "") == "range(number_of_chunks)"):
         raise Untranslatable(f"unexpected loop `for {ast.unparse(loop.target)} in {ast.unparse(loop.iter)}`")
-    tr = ExprTr({"d": "(Int.fdiv n k)", "r": "(Int.fmod n k)", "idx": "idx"})
-    lets, _ = translate_block(loop.body, tr, ["si"])
+    tr.locals.pop(loop.target.id, None)
+    tr.binds[loop.target.id] = "idx"
+    l, _ = translate_block(loop.body, tr, [])
+    lets += l
     sl = None
     for st in loop.body:
         if isinstance(st, ast.Expr) and isinstance(st.value, ast.Yield):
@@ -91,45 +111,124 @@ def _bvs_advance(k: Kernel, fn):
     return emit_def(k.name, k.params, [], ExprTr(_bvs_binds).bool(adv.test), "Bool")
 
 
-_init_binds = {"curr_slice.stop": "stop", "curr_slice.start": "start", "batch_size": "bs"}
+# `BatchVolumeSampler.__init__` bookkeeping.  Where the code lives (inline loop, list comprehension / `sum(...)`, a private
+# helper of the class called from `__init__`) and what the locals are called does not matter: the summand of the batch count
+# is the argument of the one `math.ceil(a / b)` in that scope, the end-of-volume entry is the one collected value that reads
+# `.stop`; both are translated after inlining locals, with `<range>.start/.stop` of the volume's range and the batch size bound.
+import copy
 
 
-def _bvs_init_loop(fn):
-    loop = find_for(fn, 0)
-    if ast.unparse(loop.iter) != "self.sampler.volume_indices":
-        raise Untranslatable("loop over `self.sampler.volume_indices` not found")
-    return loop
+class _Subst(ast.NodeTransformer):
+    def __init__(self, env):
+        self.env = env
+
+    def visit_Name(self, n):
+        if isinstance(n.ctx, ast.Load) and n.id in self.env:
+            return copy.deepcopy(self.env[n.id])
+        return n
+
+    def visit_Attribute(self, n):
+        if isinstance(n.ctx, ast.Load) and ast.unparse(n) in self.env:
+            return copy.deepcopy(self.env[ast.unparse(n)])
+        return self.generic_visit(n)
+
+
+def _sub(env, e):
+    return ast.fix_missing_locations(_Subst(env).visit(copy.deepcopy(e)))
+
+
+def _bvs_init_scope(tree):
+    """[(function, env)] for `BatchVolumeSampler.__init__` and the helpers of the class it calls; env = helper parameters bound
+    to the call-site arguments + locals assigned exactly once (inlined)."""
+    cls = _class(tree, "BatchVolumeSampler")
+    methods = {f.name: f for f in cls.body if isinstance(f, ast.FunctionDef)}
+    if "__init__" not in methods:
+        raise Untranslatable("BatchVolumeSampler.__init__ not found")
+    scope, seen = [], set()
+
+    def add(fn, env):
+        if fn.name in seen:
+            return
+        seen.add(fn.name)
+        counts = {}
+        for n in ast.walk(fn):
+            if isinstance(n, ast.Name) and isinstance(n.ctx, ast.Store):
+                counts[n.id] = counts.get(n.id, 0) + 1
+        env = dict(env)
+        for n in all_stmts(fn):
+            if (isinstance(n, ast.Assign) and len(n.targets) == 1 and isinstance(n.targets[0], ast.Name)
+                    and counts.get(n.targets[0].id) == 1):
+                env[n.targets[0].id] = _sub(env, n.value)
+        scope.append((fn, env))
+        for n in ast.walk(fn):
+            if isinstance(n, ast.Call) and isinstance(n.func, ast.Attribute) and n.func.attr in methods \
+                    and ast.unparse(n.func.value) in ("self", "cls", cls.name, "type(self)"):
+                h = methods[n.func.attr]
+                params = [a.arg for a in h.args.args if a.arg not in ("self", "cls")]
+                henv = {}
+                for pname, a in zip(params, n.args):
+                    henv[pname] = _sub(env, a)
+                for kw in n.keywords:
+                    if kw.arg:
+                        henv[kw.arg] = _sub(env, kw.value)
+                add(h, henv)
+    add(methods["__init__"], {})
+    return scope
+
+
+def _range_binds(expr, fn, env):
+    """binds for the translator: the one expression V with `V.start` / `V.stop` in `expr` must denote a volume's range."""
+    vs = {ast.unparse(n.value) for n in ast.walk(expr) if isinstance(n, ast.Attribute) and n.attr in ("start", "stop")}
+    if len(vs) != 1:
+        raise Untranslatable(f"expected one range with .start/.stop, found {sorted(vs)}")
+    v = vs.pop()
+    origin = v
+    for n in ast.walk(fn):      # loop / comprehension variable: where does it range over?
+        if isinstance(n, (ast.For, ast.comprehension)) and ast.unparse(n.target) == v:
+            origin = ast.unparse(_sub(env, n.iter))
+    if "volume_indices" not in origin:
+        raise Untranslatable(f"`{v}` is not taken from `volume_indices`")
+    return {f"{v}.stop": "stop", f"{v}.start": "start", "batch_size": "bs", "self.batch_size": "bs"}
 
 
 def _bvs_len_term(k: Kernel, fn):
-    """the summand of `self.__num_batches += math.ceil(num_indices / batch_size)`.
+    """the summand of the batch count, `math.ceil(num_indices / batch_size)`.
     `math.ceil(a / b)` (true division in binary64, then ceiling) is emitted as the exact rational ceiling
-    `pyCeilTrueDiv a b`; they agree for |a|, |b| < 2**53 (recorded assumption, probed by the oracle)."""
-    loop = _bvs_init_loop(fn)
-    tr = ExprTr(_init_binds)
-    lets, _ = translate_block(loop.body, tr, [])
-    for st in loop.body:
-        if isinstance(st, ast.AugAssign) and isinstance(st.op, ast.Add) and "num_batches" in ast.unparse(st.target):
-            v = st.value
-            if (isinstance(v, ast.Call) and ast.unparse(v.func) == "math.ceil" and len(v.args) == 1
-                    and isinstance(v.args[0], ast.BinOp) and isinstance(v.args[0].op, ast.Div)):
-                a, b = tr.int(v.args[0].left), tr.int(v.args[0].right)
-                return emit_def(k.name, k.params, lets, f"Sampler.pyCeilTrueDiv {a} {b}")
-            if (isinstance(v, ast.UnaryOp) and isinstance(v.op, ast.USub)):
-                # the integer idiom -(-a // b)
-                return emit_def(k.name, k.params, lets, tr.int(v))
-            raise Untranslatable(f"unexpected batch-count summand `{ast.unparse(v)}`")
-    raise Untranslatable("`self.__num_batches += …` not found")
+    `pyCeilTrueDiv a b`; they agree for n < 2**52 (C13.float_ceil_eq, probed by the oracle)."""
+    from ..gen import REPO
+    found = []
+    for f, env in _bvs_init_scope(parse_file(REPO / S)):
+        for n in ast.walk(f):
+            if (isinstance(n, ast.Call) and ast.unparse(n.func) == "math.ceil" and len(n.args) == 1
+                    and isinstance(n.args[0], ast.BinOp) and isinstance(n.args[0].op, ast.Div)):
+                found.append((f, env, n.args[0]))
+    if len(found) != 1:
+        raise Untranslatable(f"expected one `math.ceil(a / b)` in BatchVolumeSampler.__init__ (+ helpers), found {len(found)}")
+    f, env, div = found[0]
+    num, den = _sub(env, div.left), _sub(env, div.right)
+    tr = ExprTr(_range_binds(num, f, env))
+    return emit_def(k.name, k.params, [], f"Sampler.pyCeilTrueDiv {tr.int(num)} {tr.int(den)}")
 
 
 def _bvs_end_value(k: Kernel, fn):
-    loop = _bvs_init_loop(fn)
-    tr = ExprTr(_init_binds)
-    for st in loop.body:
-        if (isinstance(st, ast.Expr) and isinstance(st.value, ast.Call)
-                and ast.unparse(st.value.func) == "end_of_volume.append" and len(st.value.args) == 1):
-            return emit_def(k.name, k.params, [], tr.int(st.value.args[0]))
-    raise Untranslatable("`end_of_volume.append(…)` not found")
+    from ..gen import REPO
+    found = []
+    for f, env in _bvs_init_scope(parse_file(REPO / S)):
+        for n in ast.walk(f):
+            e = None
+            if isinstance(n, ast.Call) and isinstance(n.func, ast.Attribute) and n.func.attr == "append" and len(n.args) == 1:
+                e = n.args[0]
+            elif isinstance(n, ast.ListComp):
+                e = n.elt
+            if e is not None:
+                e = _sub(env, e)
+                attrs = {a.attr for a in ast.walk(e) if isinstance(a, ast.Attribute) and a.attr in ("start", "stop")}
+                if attrs == {"stop"}:
+                    found.append((f, env, e))
+    if len(found) != 1:
+        raise Untranslatable(f"expected one collected `.stop` value in BatchVolumeSampler.__init__ (+ helpers), found {len(found)}")
+    f, env, e = found[0]
+    return emit_def(k.name, k.params, [], ExprTr(_range_binds(e, f, env)).int(e))
 
 
 # ---- ConcatDatasetBatchSampler -------------------------------------------------------------------
@@ -376,7 +475,7 @@ def _c13_extra():
     for name, fnc, fb in (("dist_init_seed", lambda: _dist_init(parse_file(REPO / S)), "Sampler.expectedDistInit"),
                           ("batch_sampler_calls", lambda: _bbs_calls(parse_file(REPO / E)), "Sampler.expectedBatchSamplerCalls"),
                           ("dist_structure", lambda: _dist_structure(parse_file(REPO / S)), "Sampler.expectedDistStructure"),
-                          ("concat_next", lambda: _concat_next(parse_file(REPO / S)), "Sampler.expectedConcatNext")):
+                          ("concat_next", lambda: _concat_next(parse_file(REPO / S)), "Sampler.expectedConcatNextFlow")):
         try:
             parts.append(f"/-- read from the source -/\ndef {name} : List String :=\n  " + _lean_strs_nl(fnc()) + "\n")
             status[name] = "translated"
@@ -450,12 +549,24 @@ def _dist_init(tree) -> list[str]:
 
 
 def _concat_next(tree) -> list[str]:
+    """how the member is drawn and advanced: the three attributes `__next__` depends on, and what `__next__` returns with
+    its locals inlined (hoisting a sub-expression into a named local changes nothing)"""
     init = find_function(tree, "ConcatDatasetBatchSampler.__init__")
     out = []
     for st in init.body:
         if isinstance(st, ast.Assign) and ast.unparse(st.targets[0]) in ("self.samplers", "self.weights", "self.cumulative_sizes"):
             out.append(f"{ast.unparse(st.targets[0])}={ast.unparse(st.value)}")
-    return out + _gen_outline(find_function(tree, "ConcatDatasetBatchSampler.__next__").body)
+    env = {}
+    for st in find_function(tree, "ConcatDatasetBatchSampler.__next__").body:
+        if isinstance(st, ast.Assign) and len(st.targets) == 1 and isinstance(st.targets[0], ast.Name):
+            env[st.targets[0].id] = _sub(env, st.value)
+        elif isinstance(st, ast.Return) and st.value is not None:
+            out.append("return " + ast.unparse(_sub(env, st.value)))
+        elif isinstance(st, ast.Expr) and isinstance(st.value, ast.Constant):
+            continue
+        else:
+            out.append(f"other:{type(st).__name__}")
+    return out
 
 
 _ITER_FUNCS = {"iter", "map", "zip", "filter", "enumerate", "reversed"}
@@ -531,43 +642,50 @@ def _iter_tables(tree) -> str:
 
 
 def _seq_init_order(fn: ast.FunctionDef) -> list[str]:
-    """limit slice / chunks call / selection of the rank's chunk in statement order"""
-    out = []
+    """Data flow of `DistributedSequentialSampler.__init__`, independent of the names of locals: the communication defaults,
+    and the expression `self.volume_indices` is built from, with every local inlined and the conditional volume-limit slice
+    written `LIMIT(x, limit)`."""
+    env, out = {}, []
 
-    def visit(stmts, guard=None):
-        for st in stmts:
-            if isinstance(st, ast.If):
-                t = st.test
-                if (isinstance(t, ast.Compare) and len(t.ops) == 1 and isinstance(t.ops[0], ast.Is)
-                        and ast.unparse(t.comparators[0]) == "None" and len(st.body) == 1 and isinstance(st.body[0], ast.Assign)
-                        and ast.unparse(st.body[0].targets[0]) == ast.unparse(t.left) and not st.orelse):
-                    out.append(f"default: {ast.unparse(t.left)}={ast.unparse(st.body[0].value)}")
+    def kill(st):
+        for n in ast.walk(st):
+            if isinstance(n, ast.Name) and isinstance(n.ctx, ast.Store):
+                env[n.id] = ast.Name(id="UNKNOWN", ctx=ast.Load())
+
+    for st in fn.body:
+        if isinstance(st, ast.If):
+            t = st.test
+            if (isinstance(t, ast.Compare) and len(t.ops) == 1 and isinstance(t.ops[0], ast.Is)
+                    and ast.unparse(t.comparators[0]) == "None" and len(st.body) == 1 and isinstance(st.body[0], ast.Assign)
+                    and ast.unparse(st.body[0].targets[0]) == ast.unparse(t.left) and not st.orelse):
+                out.append(f"default: {ast.unparse(t.left)}={ast.unparse(st.body[0].value)}")
+                continue
+            if (len(st.body) == 1 and not st.orelse and isinstance(st.body[0], ast.Assign)
+                    and len(st.body[0].targets) == 1 and isinstance(st.body[0].targets[0], ast.Name)):
+                x = st.body[0].targets[0].id
+                v = st.body[0].value
+                cur = env.get(x, ast.Name(id=x, ctx=ast.Load()))
+                if (isinstance(v, ast.Subscript) and isinstance(v.slice, ast.Slice) and v.slice.lower is None
+                        and v.slice.step is None and v.slice.upper is not None
+                        and ast.unparse(v.slice.upper) == ast.unparse(t) and ast.unparse(_sub(env, v.value)) == ast.unparse(cur)):
+                    env[x] = ast.Call(func=ast.Name(id="LIMIT", ctx=ast.Load()), args=[cur, copy.deepcopy(t)], keywords=[])
                     continue
-                visit(st.body, ast.unparse(st.test))
-                visit(st.orelse, "not " + ast.unparse(st.test))
-                continue
-            if isinstance(st, (ast.For, ast.While, ast.With, ast.Try)):
-                visit(getattr(st, "body", []), guard)
-                continue
-            if not isinstance(st, ast.Assign) or len(st.targets) != 1:
-                continue
-            tg, v = ast.unparse(st.targets[0]), st.value
-            if (isinstance(v, ast.Subscript) and isinstance(v.slice, ast.Slice) and v.slice.upper is not None
-                    and "limit_number_of_volumes" in ast.unparse(v.slice.upper)):
-                lo = "" if v.slice.lower is None else ast.unparse(v.slice.lower)
-                out.append(f"limit: {tg}={ast.unparse(v.value)}[{lo}:{ast.unparse(v.slice.upper)}] if {guard}")
-            for n in ast.walk(v):
-                if isinstance(n, ast.Call) and ast.unparse(n.func) == "chunks":
-                    out.append(f"chunk: {tg}<-chunks({', '.join(ast.unparse(a) for a in n.args)})")
-                if (isinstance(n, ast.Subscript) and not isinstance(n.slice, ast.Slice)
-                        and ast.unparse(n.slice) in ("self.rank", "rank")):
-                    cond = ""
-                    if isinstance(v, ast.IfExp):
-                        cond = f" if {ast.unparse(v.test)} else {ast.unparse(v.orelse)}"
-                    out.append(f"select: {tg}={ast.unparse(n.value)}[{ast.unparse(n.slice)}]{cond}")
-    visit(fn.body)
-    if not any(o.startswith("chunk:") for o in out) or not any(o.startswith("select:") for o in out):
-        raise Untranslatable("`chunks(...)` call / `[self.rank]` selection not found in DistributedSequentialSampler.__init__")
+            kill(st)
+            continue
+        if isinstance(st, ast.Assign) and len(st.targets) == 1 and isinstance(st.targets[0], (ast.Name, ast.Attribute)):
+            env[ast.unparse(st.targets[0])] = _sub(env, st.value)
+            continue
+        if isinstance(st, ast.Expr):
+            continue
+        kill(st)
+    vi = env.get("self.volume_indices")
+    if not (isinstance(vi, ast.DictComp) and len(vi.generators) == 1 and not vi.generators[0].ifs
+            and isinstance(vi.generators[0].target, ast.Name)):
+        raise Untranslatable("`self.volume_indices = {name: … for name in …}` not found in DistributedSequentialSampler.__init__")
+    g = vi.generators[0]
+    ren = {g.target.id: ast.Name(id="_", ctx=ast.Load())}
+    out.append("volume_indices: {" + ast.unparse(_sub(ren, vi.key)) + ": " + ast.unparse(_sub(ren, vi.value)) + " for _ in "
+               + ast.unparse(g.iter) + "}")
     return out
 
 
